@@ -257,7 +257,10 @@ def check(doc):
                     raise Violation('short-insertion-broke-the-part', case, dict(det, words=k))
                 p = r[la][ia]
                 between = p[0][ka + len(a):kb]
-                if between.strip() not in CHANGE or not between.startswith(' ') or not between.endswith(' '):
+                # the placeholder is read as a word of the surrounding part: it comes from the collection
+                # that the parser settings give for that language (seeded change C12-H)
+                coll = CHANGE[4:] if la == 'ru-RU' else CHANGE[:4]
+                if between.strip() not in coll or not between.startswith(' ') or not between.endswith(' '):
                     raise Violation('short-insertion-not-one-placeholder', case, dict(det, between=between))
                 i0 = ka + len(a) + between.index(between.strip())
                 pp = p[1][i0:i0 + len(between.strip())]
